@@ -85,7 +85,8 @@ func (tb *TruthyBool) Boolean() bool {
 	if *tb == "" {
 		return true
 	}
-	return *tb == "true"
+	// A value that came in through a property was not lower-cased.
+	return strings.EqualFold(string(*tb), "true")
 }
 
 // FalsyBool represents a string field that holds a boolean value,
@@ -120,7 +121,8 @@ func (fb *FalsyBool) interpolate(dictionary map[string]string) bool {
 }
 
 func (fb *FalsyBool) Boolean() bool {
-	return *fb == "true"
+	// A value that came in through a property was not lower-cased.
+	return strings.EqualFold(string(*fb), "true")
 }
 
 // interpolating resolves all property placeholders in s with their
